@@ -59,6 +59,25 @@ def write_input(path, seed):
         fh.write("mutation_id\tcluster_id\n" + "".join("mut_%s\t%d\n" % (m, c) for m, c in cl.items()))
 
 
+def write_input_assign(path):
+    """Clustered input for --assign-loss-prob: a truncal cluster spread over six chromosomes, a subclone confined to one
+    chromosome (a candidate lost cluster), a subclone spread over four; the cluster table carries sample, prevalence and
+    chromosome columns as PyClone-VI writes them."""
+    cl = {"K0": ((0.95, 0.95), (1, 2, 3, 4, 5, 6)), "K1": ((0.3, 0.05), (7, 7, 7, 7)), "K2": ((0.05, 0.4), (1, 2, 3, 4))}
+    rows = ["mutation_id\tsample_id\tref_counts\talt_counts\tmajor_cn\tminor_cn\tnormal_cn"]
+    crows = ["mutation_id\tsample_id\tcluster_id\tcellular_prevalence\tchrom"]
+    for cid, (ccf, chroms) in cl.items():
+        for i, ch in enumerate(chroms):
+            for s, c in zip(("T1", "T2"), ccf):
+                alt = int(round(300 * c / 2)) + i
+                rows.append("%s_m%d\t%s\t%d\t%d\t1\t1\t2" % (cid, i, s, 300 - alt, alt))
+                crows.append("%s_m%d\t%s\t%s\t%s\tchr%d" % (cid, i, s, cid, c, ch))
+    with open(path, "w") as fh:
+        fh.write("\n".join(rows) + "\n")
+    with open(path + ".clusters.tsv", "w") as fh:
+        fh.write("\n".join(crows) + "\n")
+
+
 def launch(label, workdir, in_file, seed, chains, hashseed, one_core=False, delays=None, extra=()):
     out = os.path.join(workdir, label + ".pkl.gz")
     e = dict(os.environ)
@@ -132,12 +151,18 @@ def run(corrupt=None):
     runs = [collect(r) for r in runs]
     singles = [collect(r) for r in singles]
     extra_groups = []
+    # --assign-loss-prob: the loss priors are drawn with the main generator before the chains are spawned
+    in_assign = os.path.join(workdir, "in_assign.tsv")
+    write_input_assign(in_assign)
+    grp = [launch("assign_%s" % l, workdir, in_assign, seed + 7, 2, extra=("--assign-loss-prob", "--high-loss-prob", "0.3"), **kw)
+           for l, kw in (("h0_delay_chain1", dict(hashseed=0, delays="0:0,1:5")), ("h5_onecore_delay_chain0", dict(hashseed=5, one_core=True, delays="0:5,1:0")))]
+    assign_group = [collect(r) for r in grp]
     if thorough:
         for gi, (prop, op) in enumerate((("bootstrap", "0.3"), ("fully-adapted", "0"), ("semi-adapted", "0.3"))):
             grp = [launch("g%d_%s" % (gi, l), workdir, in_file, seed + 1 + gi, 3, extra=("--proposal", prop, "--outlier-prob", op), **kw)
                    for l, kw in (("h0", dict(hashseed=0)), ("h7_onecore", dict(hashseed=7, one_core=True)), ("h3_delayed", dict(hashseed=3, delays="0:7,1:3,2:0")))]
             extra_groups.append([collect(r) for r in grp])
-    for grp, what in [(runs, "2 chains")] + [(singles, "1 chain")] + [(g, "3 chains") for g in extra_groups]:
+    for grp, what in [(runs, "2 chains")] + [(singles, "1 chain")] + [(assign_group, "2 chains, --assign-loss-prob")] + [(g, "3 chains") for g in extra_groups]:
         for r in grp:
             if r["rc"] != 0 or "chains" not in r:
                 raise RuntimeError("phyclone run failed in the harness (%s): %s" % (r["label"], r["stdout_tail"][-800:]))
@@ -156,7 +181,7 @@ def run(corrupt=None):
     ck.sample({"run": runs[0]["label"], "completion_order": runs[0]["order"], "chain0_first_entries": runs[0]["chains"][0][:3]})
     shutil.rmtree(workdir, ignore_errors=True)
     ck.rule = ("real `phyclone run` executions with the same seed under 3 perturbation settings (hash seed, CPU affinity, chain start delays reversing completion "
-               "order) for 2 chains, 2 settings for 1 chain (thorough: + 3 proposals x 3 chains); every trace entry of every chain compared bit-for-bit; "
+               "order) for 2 chains, 2 settings for 1 chain, 2 settings for a clustered input with --assign-loss-prob (thorough: + 3 proposals x 3 chains); every trace entry of every chain compared bit-for-bit; "
                "non-trivial = each (group, perturbation) comparison")
     ck.assumptions = ["OS scheduling is sampled, not enumerated (the interleavings are exhaustive only in Chains.tla)",
                       "completion order is read from the run's own 'Finished chain' lines"]
